@@ -18,11 +18,15 @@
    with the same iteration bound for `while` and for Loop-without-trip-count.
    The `for` form needs two facts about the kernels (premises of the theorem): Identity returns its input, and the
    constant condition of_bool b is read back as b.
-   NOT proved: the Loop form `for` + `if not c: break` (trip count AND condition), which is part of the emission model
-   and of the correspondence check only (it needs a law for the Not kernel, a total truth function and one more level
-   of Python nesting than the graph has; the converter refuses the printed form anyway: known finding);
+   The third Loop form, `for` + `if not c: break` (a trip count AND a condition input, the body computes the next
+   condition and does not read its condition input), is in the class when the flag brk of nested_okb is set; it needs
+   the kernel laws C01 uses for its break forms: Not negates a condition, and (brk = true only) every value is
+   readable as a condition -- Python leaves an exhausted `range` without looking at the condition, the ONNX Loop reads
+   the condition before it looks at the trip count (with a trip count of 0 and a non-boolean condition the graph fails
+   and the script does not).
+   NOT proved:
    use_operators / inline_const / skip_initializers (model + correspondence only; one refutation below); attribute
-   parameters; the way back through the converter (C01). *)
+   parameters.  The way back through the converter: Props/C13_roundtrip.v. *)
 From Coq Require Import List String ZArith.
 Import ListNotations.
 Require Import OV.Gen.ExportTables OV.Export.Cleanup OV.Graph.Syntax OV.Graph.Names OV.Graph.Sem OV.Script.Syntax OV.Script.PySem
@@ -43,9 +47,12 @@ Definition C13_export_sound_nested_full : Prop :=
 Theorem C13_export_nested_sound_partial :
   forall (V : Type) sem truth trip of_nat of_bool limit globals kw prename rename infun,
     (forall v, sem "" "Identity" [] [Some v] = Some [v]) -> (forall b, truth (of_bool b) = Some b) ->
+    forall brk,
+    (forall v b, truth v = Some b -> exists r, sem "" "Not" [] [Some v] = Some [r] /\ truth r = Some (negb b)) ->
+    (brk = true -> forall v, exists b, truth v = Some b) ->
     forall fname ivals g f sk,
     export_cf kw prename rename infun None None false fname ivals g = Some (f, sk) ->
-    nested_okb kw prename rename infun ivals g = true ->
+    nested_okb kw prename rename infun brk ivals g = true ->
     forall fp fg xs, depth_graph g <= S fp -> depth_graph g <= S fg ->
       eval_script V sem truth trip of_nat limit globals (S (S fp)) f xs =
       match init_env V sem ivals with
@@ -58,7 +65,7 @@ Print Assumptions C13_export_nested_sound_partial.
 (* non-vacuity: an If whose else branch contains a while loop reading an outer value and an initializer; dotted names
    and a keyword; nested_okb holds, the export is the expected program, both sides give 94 on -3 and -10 on 5 *)
 Theorem C13_export_nested_example :
-  nested_okb kwlist (cleanup kwlist) (cleanup kwlist) false iv_nested g_nested = true /\
+  nested_okb kwlist (cleanup kwlist) (cleanup kwlist) false false iv_nested g_nested = true /\
   export_cf kwlist (cleanup kwlist) (cleanup kwlist) false None None false "g" iv_nested g_nested = Some (f_nested, []) /\
   zscript2 f_nested [(-3)%Z] = Some [94%Z] /\ zscript2 f_nested [5%Z] = Some [(-10)%Z] /\
   option_map (fun outer => zgraph2 outer g_nested [(-3)%Z]) (init_env Z zsem2 iv_nested) = Some (Some [94%Z]) /\
@@ -68,12 +75,23 @@ Print Assumptions C13_export_nested_example.
 
 (* non-vacuity for the counted form: `for i in range(n)`, iteration number used, pass-through condition as last body node *)
 Theorem C13_export_for_example :
-  nested_okb kwlist (cleanup kwlist) (cleanup kwlist) true [] g_for = true /\
+  nested_okb kwlist (cleanup kwlist) (cleanup kwlist) true false [] g_for = true /\
   export_cf kwlist (cleanup kwlist) (cleanup kwlist) true None None false "g" [] g_for = Some (f_for, []) /\
   zscript2 f_for [5%Z; 3%Z] = Some [23%Z] /\ zgraph2 [] g_for [5%Z; 3%Z] = Some [23%Z] /\
   zscript2 f_for [5%Z; 0%Z] = Some [5%Z] /\ zgraph2 [] g_for [5%Z; 0%Z] = Some [5%Z].
 Proof. exact export_for_example. Qed.
 Print Assumptions C13_export_for_example.
+
+(* non-vacuity for the form with a trip count AND a condition (in the class only with brk = true) *)
+Theorem C13_export_forbreak_example :
+  nested_okb kwlist (cleanup kwlist) (cleanup kwlist) true true [] g_forbreak = true /\
+  nested_okb kwlist (cleanup kwlist) (cleanup kwlist) true false [] g_forbreak = false /\
+  export_cf kwlist (cleanup kwlist) (cleanup kwlist) true None None false "g" [] g_forbreak = Some (f_forbreak, []) /\
+  zscript2 f_forbreak [2%Z; 5%Z] = Some [0%Z] /\ zgraph2 [] g_forbreak [2%Z; 5%Z] = Some [0%Z] /\
+  zscript2 f_forbreak [5%Z; 2%Z] = Some [3%Z] /\ zgraph2 [] g_forbreak [5%Z; 2%Z] = Some [3%Z] /\
+  zscript2 f_forbreak [(-1)%Z; 4%Z] = Some [(-1)%Z] /\ zgraph2 [] g_forbreak [(-1)%Z; 4%Z] = Some [(-1)%Z].
+Proof. exact export_forbreak_example. Qed.
+Print Assumptions C13_export_forbreak_example.
 
 (* use_operators + inline_const: the program printed for Pow(-2, x) is `y = -2 ** x`, i.e. -(2 ** x) once parsed.
    Replayed on the real exporter by the harness: known finding C13:use_operators:negative-literal-pow-base:precedence. *)
